@@ -31,7 +31,7 @@ def run(mid, pids):
 if __name__ == "__main__":
     import fnmatch
     every = sorted(os.listdir(os.path.join(VERIF, "seeded")))
-    ids = every if sys.argv[1] == "all" else (fnmatch.filter(every, sys.argv[1]) if "*" in sys.argv[1] else [sys.argv[1]])
+    ids = every if sys.argv[1] == "all" else [] if sys.argv[1] == "merge" else (fnmatch.filter(every, sys.argv[1]) if "*" in sys.argv[1] else [sys.argv[1]])
     rows = []
     for mid in ids:
         if not os.path.exists(os.path.join(VERIF, "seeded", mid, "patch.diff")):
@@ -57,9 +57,17 @@ if __name__ == "__main__":
                     how = "(obligation only, no failing input) " + how
             print("%-28s %s rc=%d %s | %s" % (mid, pid, rc, "DETECTED" if det else "MISSED", (viol or [last])[0][:150]), flush=True)
             rows.append((mid, pid, "detected" if det else "MISSED", (meta.get("summary") or meta.get("what_breaks") or "")[:140].replace("|", "/").replace("\n", " "), how))
-    if sys.argv[1] == "all" and rows:
+    # every run leaves its rows behind; `mutants.py merge` (and `all`) write DETECTION.md from all of them
+    rdir = os.path.join(VERIF, "seeded", ".rows")
+    os.makedirs(rdir, exist_ok=True)
+    if sys.argv[1] != "merge":
+        for r in rows:
+            json.dump(list(r), open(os.path.join(rdir, "%s.%s.json" % (r[0], r[1])), "w"))
+    if sys.argv[1] in ("all", "merge"):
+        rows = sorted(tuple(json.load(open(os.path.join(rdir, n)))) for n in os.listdir(rdir) if n.endswith(".json"))
+        rows = [r for r in rows if os.path.exists(os.path.join(VERIF, "seeded", r[0], "patch.diff"))]
         with open(os.path.join(VERIF, "seeded", "DETECTION.md"), "w") as f:
-            f.write("# Seeded changes vs checks (quick tier, VERIF_SEED=1; regenerated by `python3 py/mutants.py all`)\n\n")
+            f.write("# Seeded changes vs checks (quick tier, VERIF_SEED=1; written by `python3 py/mutants.py all` or, after partial runs, `python3 py/mutants.py merge`)\n\n")
             f.write("| seeded change | check | result | what the change does | first failing input reported |\n|---|---|---|---|---|\n")
             for r in rows:
                 f.write("| %s | %s | %s | %s | %s |\n" % r)
